@@ -630,6 +630,55 @@ fn one_world(out: &mut Out, r: &mut Rng, w: &SchemaWorld, chainy: bool, cname: &
         }
         pols.push(Pol { id, text, kind, min_level, acc });
     }
+    // ---- templates (`?principal` / `?resource` in the scope): verdicts only (they are not linked / evaluated here)
+    let topts = gt::GenOpts { templates: true, near_miss_pct: 0, ill_typed_pct: 0, ..gt::GenOpts::default() };
+    for i in 0..3 {
+        let gp = gt::gen_policy(r, w, &topts);
+        if !gp.is_template {
+            continue;
+        }
+        let Ok(t) = parser::parse_policy_or_template(Some(PolicyID::from_string(format!("t{i}"))), &gp.text) else { continue };
+        let mut ps = PolicySet::new();
+        if ps.add_template(t.clone()).is_err() {
+            continue;
+        }
+        let Ok(strict) = catch_unwind(AssertUnwindSafe(|| val.validate(&ps, ValidationMode::Strict))) else { continue };
+        if !strict.validation_passed() {
+            continue;
+        }
+        let mut verdicts = Vec::new();
+        let mut accs = Vec::new();
+        for n in 0..=MAX_LEVEL {
+            if let Ok((a, v)) = level_verdict(&val, &ps, n) {
+                accs.push(a);
+                verdicts.push(v);
+            }
+        }
+        if verdicts.len() != MAX_LEVEL as usize + 1 {
+            continue;
+        }
+        for n in 0..MAX_LEVEL as usize {
+            if accs[n] && !accs[n + 1] {
+                out.propfail("acceptance not monotone in the level", &format!("{cname} template=`{}` schema={}", gp.text, w.json), &format!("level {n}"));
+            }
+        }
+        let kind = |slot: ast::SlotId, c: &ast::PrincipalOrResourceConstraint| -> &'static str {
+            if !t.slots().any(|s| s.id == slot) {
+                return "none";
+            }
+            match c {
+                ast::PrincipalOrResourceConstraint::Eq(_) => "eq",
+                ast::PrincipalOrResourceConstraint::In(_) | ast::PrincipalOrResourceConstraint::IsIn(_, _) => "in",
+                _ => "other",
+            }
+        };
+        let pc = kind(ast::SlotId::principal(), t.principal_constraint().as_inner());
+        let rc = kind(ast::SlotId::resource(), t.resource_constraint().as_inner());
+        if let Some(cond) = tyck_tpl(&t) {
+            out.line(format!("(level {ssx} levels (tpl {pc} {rc}) {cond})"), format!("(level {})", verdicts.join(" ")), format!("{cname} [template] {}", gp.text));
+            out.count("level_lines:template");
+        }
+    }
     if pols.is_empty() {
         return;
     }
